@@ -35,6 +35,8 @@ def run_one(m):
                            stdout=subprocess.PIPE, stderr=subprocess.STDOUT, text=True, cwd=ROOT)
         viol = [l for l in p.stdout.splitlines() if l.startswith('VIOLATION')]
         res = 'CAUGHT' if p.returncode == 1 and viol else ('MACHINERY' if p.returncode == 2 else 'MISSED')
+        if m.get('expect') == 'equivalent':
+            res = {'MISSED': 'QUIET-OK', 'CAUGHT': 'FALSE-ALARM'}.get(res, res)
         detail = ''
         for i, l in enumerate(p.stdout.splitlines()):
             if l.startswith('VIOLATION'):
@@ -63,7 +65,7 @@ def main():
     bad = 0
     for r in results:
         print('%-8s %-5s %-28s %s' % (r['result'].split()[0], r['property'], r['id'], r.get('note', '')))
-        if r['result'] != 'CAUGHT':
+        if r['result'] not in ('CAUGHT', 'QUIET-OK'):
             bad += 1
             print('    ' + r.get('detail', '').replace('\n', '\n    '))
     out = os.path.join(ROOT, 'mutants', 'results.json')
